@@ -154,7 +154,7 @@ class C08(core.Check):
         "Theorems: mid point / centre / uniqueness / three-point centre / side test on bisector / polyline >= chord. "
         "Over the reals (round 6): arc_length_3point as modelled = radius x angle incl. the arccos step, exactly outside the known "
         "finding's region; the three specifications agree. Validator-checked only: float rounding of the implementation (its acos step is "
-        "validated through a rational (cos, sin) witness of length/radius), arc length >= chord for Origin/classic arcs. "
+        "validated through a rational (cos, sin) witness of length/radius), (arc length >= chord is a theorem for every three-point arc over the reals; the length theorem holds for every accepted triple, frame and angles derived from coordinates). "
         "Known finding: the interior/exterior decision of arc_length_3point for a third point between the far end and the "
         "antipode (identical to blockMesh's arcEdge)."
     )
